@@ -77,7 +77,8 @@ class TraceLoader(SourceFileLoader):
         for tracer in self._tracers:
             if not tracer.bytecode_caching_allowed:
                 return "pyccolo"
-            elif not tracer.should_instrument_file(path):
+            elif not tracer._should_instrument_file_impl(path):
+                # same test as the one deciding whether the tracer instruments the file
                 continue
             tracer_cls = tracer.__class__
             suffix_parts.append(tracer_cls.__name__)
